@@ -580,7 +580,11 @@ fn execute_write_count(db: &core::Db, cypher: &str, params: &Params) -> ApiResul
     }
     let prepared = prepare(cypher).map_err(|e| ApiError::from_query_message(&e.to_string()))?;
     let snapshot = db.snapshot();
+    #[cfg(luqing_studio_nervusdb_verif)]
+    nervusdb_core::verif_hooks::sched("capi.write.after_snapshot");
     let mut txn = db.begin_write();
+    #[cfg(luqing_studio_nervusdb_verif)]
+    nervusdb_core::verif_hooks::sched("capi.write.after_begin_write");
     let (_rows, write_count) = prepared
         .execute_mixed(&snapshot, &mut txn, params)
         .map_err(|e| ApiError::from_query_message(&e.to_string()))?;
